@@ -162,7 +162,7 @@ def check_pl(case):
 
 # ------------------------------------------------------------------ threshold_at_metric
 METRICS = ["fnr", "fpr", "tpr", "tnr", "topr", "tonr", "tar", "frr", "trr", "far", "acceptance_rate",
-           "rejection_rate", "call-absdiff", "call-sum", "call-npv"]
+           "rejection_rate", "call-absdiff", "call-sum", "call-npv", "call-centred", "call-ecdf"]
 
 
 def _metric(name):
@@ -170,6 +170,12 @@ def _metric(name):
         return lambda s, t: np.abs(s.fnr(t) - s.fpr(t))
     if name == "call-sum":
         return lambda s, t: s.fnr(t) + 2 * s.fpr(t)
+    # metrics that look at the whole vector of evaluation points (equal points still get equal values):
+    # a rate centred over the points it is evaluated at, and the empirical distribution of those points
+    if name == "call-centred":
+        return lambda s, t: s.fpr(t) - np.mean(s.fpr(t))
+    if name == "call-ecdf":
+        return lambda s, t: np.searchsorted(np.sort(np.ravel(t)), t, side="right") / max(np.size(t), 1)
     if name == "call-npv":
         return lambda s, t: np.nan_to_num(s.cm(t).npv(), nan=0.5)
     return name
